@@ -106,4 +106,318 @@ theorem predict_spec (K : Kernel X Wt α μ) (E : Ext X Wt P C α) (self : Self 
 
 end Predict
 
+/-! ### Training -/
+
+section Train
+variable {X Wt P C α μ θ : Type} [LinearOrder α] [Inhabited Wt] [Inhabited C]
+
+/-- the kernel contract, at every state and sample a training call can meet; the reset function's answer is a
+function of the sample and the category only (`vetoF x c` = "category `c` is forbidden for sample `x`") -/
+def GContract (K : Kernel X Wt α μ) (cfg : SearchCfg μ θ) (E : Ext X Wt P C α) (th : P → θ) (is_none : Bool)
+    (reset : X → Wt → Nat → P → C → Bool) (vetoF : X → Nat → Bool) (mt : MT) (eps : α) : Prop :=
+  ∀ (W : List Wt) (x : X) (p0 : P), Contract K cfg E th W x p0 is_none reset (vetoF x) mt eps
+
+/-- one iteration of the `partial_fit` loop: one model `stepFit`, the label written at position `i + j` -/
+theorem partial_fit_body_eq (K : Kernel X Wt α μ) (cfg : SearchCfg μ θ) (E : Ext X Wt P C α) (th : P → θ)
+    (is_none : Bool) (reset : X → Wt → Nat → P → C → Bool) (vetoF : X → Nat → Bool) (mt : MT) (eps : α)
+    (hG : GContract K cfg E th is_none reset vetoF mt eps) (p0 : P) (hw : Bool) (j : Nat)
+    (m : ArtState Wt) (lab : List Nat) (x : X) (i : Nat) :
+    Art.Gen.BaseART.partial_fit_loop1_body E mt eps j is_none reset (m.W, m.cnt, m.n, p0, lab, hw) (x, i) =
+      (let r := stepFit K cfg (th p0) (vetoF x) m x
+       Flow.next (r.1.W, r.1.cnt, r.1.n, p0, lab.set (i + j) r.2, hw)) := by
+  have href := step_fit_refines K cfg E th
+    ({ W := m.W, cnt := m.cnt, n := m.n, params := p0, labels := lab, hasW := hw } : Self Wt P)
+    x is_none reset (vetoF x) mt eps (hG m.W x p0)
+  simp only at href
+  unfold Art.Gen.BaseART.partial_fit_loop1_body
+  simp only [href]
+  -- the model's step does not look at the labels
+  have hfr : ∀ (l1 l2 : List Nat),
+      (stepFit K cfg (th p0) (vetoF x) { W := m.W, cnt := m.cnt, n := m.n, labels := l1 } x).1.W =
+        (stepFit K cfg (th p0) (vetoF x) { W := m.W, cnt := m.cnt, n := m.n, labels := l2 } x).1.W ∧
+      (stepFit K cfg (th p0) (vetoF x) { W := m.W, cnt := m.cnt, n := m.n, labels := l1 } x).1.cnt =
+        (stepFit K cfg (th p0) (vetoF x) { W := m.W, cnt := m.cnt, n := m.n, labels := l2 } x).1.cnt ∧
+      (stepFit K cfg (th p0) (vetoF x) { W := m.W, cnt := m.cnt, n := m.n, labels := l1 } x).1.n =
+        (stepFit K cfg (th p0) (vetoF x) { W := m.W, cnt := m.cnt, n := m.n, labels := l2 } x).1.n ∧
+      (stepFit K cfg (th p0) (vetoF x) { W := m.W, cnt := m.cnt, n := m.n, labels := l1 } x).2 =
+        (stepFit K cfg (th p0) (vetoF x) { W := m.W, cnt := m.cnt, n := m.n, labels := l2 } x).2 := by
+    intro l1 l2
+    simp only [stepFit]
+    split
+    · simp [applyWinner]
+    · cases (stepSearch K cfg (th p0) (vetoF x) m.W x).winner with
+      | none => simp [applyWinner]
+      | some c =>
+        simp only [applyWinner]
+        split <;> simp
+  obtain ⟨h1, h2, h3, h4⟩ := hfr lab m.labels
+  have hm : ({ W := m.W, cnt := m.cnt, n := m.n, labels := m.labels } : ArtState Wt) = m := rfl
+  rw [hm] at h1 h2 h3 h4
+  simp only [h1, h2, h3, h4]
+
+/-- the loop of `partial_fit`: each sample is one `trainStep` of the model; labels are written into the
+zero-padded vector at offset `j` -/
+theorem partial_fit_loop (K : Kernel X Wt α μ) (cfg : SearchCfg μ θ) (E : Ext X Wt P C α) (th : P → θ)
+    (is_none : Bool) (reset : X → Wt → Nat → P → C → Bool) (vetoF : X → Nat → Bool) (mt : MT) (eps : α)
+    (hG : GContract K cfg E th is_none reset vetoF mt eps) (p0 : P) (hw : Bool) (j : Nat) :
+    ∀ (xs : List X) (k : Nat) (m : ArtState Wt) (tail : List Nat), tail.length = xs.length →
+      m.labels.length = j + k →
+      forEach (Art.Gen.BaseART.partial_fit_loop1_body E mt eps j is_none reset) (xs.zipIdx k)
+          (m.W, m.cnt, m.n, p0, m.labels ++ tail, hw) =
+        (let m' := xs.foldl (trainStep K cfg (th p0) (fun _ x c => vetoF x c)) m
+         Flow.next (m'.W, m'.cnt, m'.n, p0, m'.labels, hw)) := by
+  intro xs
+  induction xs with
+  | nil =>
+    intro k m tail ht _
+    cases tail with
+    | nil => simp [forEach]
+    | cons _ _ => simp at ht
+  | cons x xs ih =>
+    intro k m tail ht hl
+    cases tail with
+    | nil => simp at ht
+    | cons t tail =>
+      simp only [List.zipIdx_cons, forEach, List.foldl_cons]
+      rw [partial_fit_body_eq K cfg E th is_none reset vetoF mt eps hG p0 hw j m]
+      simp only
+      have hset : (m.labels ++ t :: tail).set (k + j) (stepFit K cfg (th p0) (vetoF x) m x).2 =
+          (m.labels ++ [(stepFit K cfg (th p0) (vetoF x) m x).2]) ++ tail := by
+        have : k + j = m.labels.length := by omega
+        rw [this]; simp
+      rw [hset]
+      obtain ⟨_, hlab, _⟩ := stepFit_frame K cfg (th p0) (vetoF x) m x
+      have hts : trainStep K cfg (th p0) (fun _ x c => vetoF x c) m x =
+          { (stepFit K cfg (th p0) (vetoF x) m x).1 with
+            labels := m.labels ++ [(stepFit K cfg (th p0) (vetoF x) m x).2] } := by
+        simp [trainStep, hlab]
+      have hlen : (trainStep K cfg (th p0) (fun _ x c => vetoF x c) m x).labels.length = j + (k + 1) := by
+        rw [trainStep_labels_length]; omega
+      have := ih (k + 1) (trainStep K cfg (th p0) (fun _ x c => vetoF x c) m x) tail (by simpa using ht) hlen
+      rw [hts] at this ⊢
+      simpa using this
+
+/-- **`partial_fit` is the model's `partialFit`** (a left fold of `trainStep` over the batch): new labels are appended
+to the old ones, weights / counters / sample counter are the fold's, `params` is returned untouched.  On a
+freshly constructed estimator (`hasattr(self, "W")` false) the fold starts from no categories and no labels. -/
+theorem partial_fit_spec (K : Kernel X Wt α μ) (cfg : SearchCfg μ θ) (E : Ext X Wt P C α) (th : P → θ)
+    (is_none : Bool) (reset : X → Wt → Nat → P → C → Bool) (vetoF : X → Nat → Bool) (mt : MT) (eps : α)
+    (hG : GContract K cfg E th is_none reset vetoF mt eps) (self : Self Wt P) (Xs : List X) :
+    Art.Gen.BaseART.partial_fit E self Xs is_none reset mt eps =
+      (let s0 : ArtState Wt := if self.hasW then ⟨self.W, self.cnt, self.n, self.labels⟩ else ⟨[], self.cnt, self.n, []⟩
+       let r := partialFit K cfg (th self.params) (fun _ x c => vetoF x c) s0 Xs
+       (⟨r.W, r.cnt, r.n, self.params, r.labels, true⟩, ())) := by
+  unfold Art.Gen.BaseART.partial_fit partialFit
+  cases hh : self.hasW with
+  | false =>
+    simp only [Bool.not_false, if_true, Bool.false_eq_true, if_false]
+    have := partial_fit_loop K cfg E th is_none reset vetoF mt eps hG self.params true 0 Xs 0
+      ⟨[], self.cnt, self.n, []⟩ (List.replicate Xs.length 0) (by simp) (by simp)
+    simp only [List.nil_append] at this
+    simp only [this]
+  | true =>
+    simp only [Bool.not_true, Bool.false_eq_true, if_false, if_true]
+    have := partial_fit_loop K cfg E th is_none reset vetoF mt eps hG self.params true self.labels.length Xs 0
+      ⟨self.W, self.cnt, self.n, self.labels⟩ (List.replicate Xs.length 0) (by simp) (by simp)
+    simp only [this]
+
+/-- one iteration of the inner `fit` loop: one model `stepFit`, the label written at position `i` -/
+theorem fit_body_eq (K : Kernel X Wt α μ) (cfg : SearchCfg μ θ) (E : Ext X Wt P C α) (th : P → θ)
+    (is_none : Bool) (reset : X → Wt → Nat → P → C → Bool) (vetoF : X → Nat → Bool) (mt : MT) (eps : α)
+    (hG : GContract K cfg E th is_none reset vetoF mt eps) (p0 : P) (hw : Bool) (Xs : List X)
+    (m : ArtState Wt) (xi : X × Nat) :
+    Art.Gen.BaseART.fit_loop1_body E Xs mt eps is_none reset (m.W, m.cnt, m.n, p0, m.labels, hw) xi =
+      (let m' := epochStep K cfg (th p0) (fun _ x c => vetoF x c) m xi
+       Flow.next (m'.W, m'.cnt, m'.n, p0, m'.labels, hw)) := by
+  obtain ⟨x, i⟩ := xi
+  have href := step_fit_refines K cfg E th
+    ({ W := m.W, cnt := m.cnt, n := m.n, params := p0, labels := m.labels, hasW := hw } : Self Wt P)
+    x is_none reset (vetoF x) mt eps (hG m.W x p0)
+  simp only at href
+  have hm : ({ W := m.W, cnt := m.cnt, n := m.n, labels := m.labels } : ArtState Wt) = m := rfl
+  rw [hm] at href
+  unfold Art.Gen.BaseART.fit_loop1_body
+  obtain ⟨_, hlab, _⟩ := stepFit_frame K cfg (th p0) (vetoF x) m x
+  simp only [href, epochStep, hlab]
+
+/-- the inner loop of `fit`: one epoch of the model -/
+theorem fit_inner_loop (K : Kernel X Wt α μ) (cfg : SearchCfg μ θ) (E : Ext X Wt P C α) (th : P → θ)
+    (is_none : Bool) (reset : X → Wt → Nat → P → C → Bool) (vetoF : X → Nat → Bool) (mt : MT) (eps : α)
+    (hG : GContract K cfg E th is_none reset vetoF mt eps) (p0 : P) (hw : Bool) (Xs : List X) :
+    ∀ (l : List (X × Nat)) (m : ArtState Wt),
+      forEach (Art.Gen.BaseART.fit_loop1_body E Xs mt eps is_none reset) l (m.W, m.cnt, m.n, p0, m.labels, hw) =
+        (let m' := l.foldl (epochStep K cfg (th p0) (fun _ x c => vetoF x c)) m
+         Flow.next (m'.W, m'.cnt, m'.n, p0, m'.labels, hw)) := by
+  intro l
+  induction l with
+  | nil => intro m; rfl
+  | cons a l ih =>
+    intro m
+    simp only [forEach, List.foldl_cons]
+    rw [fit_body_eq K cfg E th is_none reset vetoF mt eps hG p0 hw Xs m a]
+    exact ih _
+
+/-- **`fit(X, max_iter = k)` is the model's `fitEpochs`**, for every number of epochs, with or without progress bar:
+weights, counters, sample counter and labels; `params` is returned untouched. -/
+theorem fit_spec (K : Kernel X Wt α μ) (cfg : SearchCfg μ θ) (E : Ext X Wt P C α) (th : P → θ)
+    (is_none : Bool) (reset : X → Wt → Nat → P → C → Bool) (vetoF : X → Nat → Bool) (mt : MT) (eps : α)
+    (hG : GContract K cfg E th is_none reset vetoF mt eps) (self : Self Wt P) (Xs : List X) (epochs : Nat)
+    (verbose : Bool) :
+    Art.Gen.BaseART.fit E self Xs is_none reset epochs mt eps verbose =
+      (let r := fitEpochs K cfg (th self.params) (fun _ x c => vetoF x c) epochs Xs
+       (⟨r.W, r.cnt, r.n, self.params, r.labels, true⟩, ())) := by
+  unfold Art.Gen.BaseART.fit fitEpochs
+  simp only
+  have houter : ∀ (es : List Nat) (m : ArtState Wt),
+      forEach (Art.Gen.BaseART.fit_loop2_body E Xs mt eps verbose is_none reset) es
+          (m.W, m.cnt, m.n, self.params, m.labels, true) =
+        (let m' := es.foldl (fun s _ => (Xs.zipIdx).foldl (epochStep K cfg (th self.params) (fun _ x c => vetoF x c)) s) m
+         Flow.next (m'.W, m'.cnt, m'.n, self.params, m'.labels, true)) := by
+    intro es
+    induction es with
+    | nil => intro m; rfl
+    | cons e es ih =>
+      intro m
+      simp only [forEach, List.foldl_cons]
+      have hin := fit_inner_loop K cfg E th is_none reset vetoF mt eps hG self.params true Xs Xs.zipIdx m
+      have hb : Art.Gen.BaseART.fit_loop2_body E Xs mt eps verbose is_none reset
+          (m.W, m.cnt, m.n, self.params, m.labels, true) e =
+          Flow.next (let m' := (Xs.zipIdx).foldl (epochStep K cfg (th self.params) (fun _ x c => vetoF x c)) m
+                     (m'.W, m'.cnt, m'.n, self.params, m'.labels, true)) := by
+        unfold Art.Gen.BaseART.fit_loop2_body
+        cases verbose <;> simp [hin]
+      rw [hb]
+      exact ih _
+  have := houter (List.range epochs) { W := [], cnt := [], n := 0, labels := List.replicate Xs.length 0 }
+  simp only at this
+  rw [this]
+
+omit [Inhabited Wt] in
+/-- the model's training step neither reads nor changes the labels -/
+theorem stepFit_with_labels (K : Kernel X Wt α μ) (cfg : SearchCfg μ θ) (th0 : θ) (veto : Nat → Bool)
+    (m : ArtState Wt) (l : List Nat) (x : X) :
+    stepFit K cfg th0 veto { m with labels := l } x =
+      ({ (stepFit K cfg th0 veto m x).1 with labels := l }, (stepFit K cfg th0 veto m x).2) := by
+  simp only [stepFit]
+  split
+  · simp [applyWinner]
+  · cases (stepSearch K cfg th0 veto m.W x).winner with
+    | none => simp [applyWinner]
+    | some c =>
+      simp only [applyWinner]
+      split <;> simp
+
+/-- writing labels into a pre-allocated vector (one epoch) is appending them (the `partialFit` fold) -/
+theorem epoch_fold_eq_train_fold (K : Kernel X Wt α μ) (cfg : SearchCfg μ θ) (th0 : θ) (vetoF : X → Nat → Bool) :
+    ∀ (xs : List X) (k : Nat) (m : ArtState Wt) (tail : List Nat), tail.length = xs.length → m.labels.length = k →
+      (xs.zipIdx k).foldl (epochStep K cfg th0 (fun _ x c => vetoF x c)) { m with labels := m.labels ++ tail } =
+        xs.foldl (trainStep K cfg th0 (fun _ x c => vetoF x c)) m := by
+  intro xs
+  induction xs with
+  | nil =>
+    intro k m tail ht _
+    cases tail with
+    | nil => simp
+    | cons _ _ => simp at ht
+  | cons x xs ih =>
+    intro k m tail ht hl
+    cases tail with
+    | nil => simp at ht
+    | cons t tail =>
+      simp only [List.zipIdx_cons, List.foldl_cons]
+      obtain ⟨_, hlab, _⟩ := stepFit_frame K cfg th0 (vetoF x) m x
+      have h1 : epochStep K cfg th0 (fun _ x c => vetoF x c) { m with labels := m.labels ++ t :: tail } (x, k) =
+          { trainStep K cfg th0 (fun _ x c => vetoF x c) m x with
+            labels := (trainStep K cfg th0 (fun _ x c => vetoF x c) m x).labels ++ tail } := by
+        simp only [epochStep, trainStep, stepFit_with_labels, hlab]
+        have : (m.labels ++ t :: tail).set k (stepFit K cfg th0 (vetoF x) m x).2 =
+            m.labels ++ [(stepFit K cfg th0 (vetoF x) m x).2] ++ tail := by
+          rw [← hl]; simp
+        simp [this]
+      rw [h1]
+      exact ih (k + 1) _ tail (by simpa using ht) (by rw [trainStep_labels_length]; omega)
+
+/-- **one epoch is the model's `fit`** (the statement the C05 / C06 theorems are about) -/
+theorem fitEpochs_one (K : Kernel X Wt α μ) (cfg : SearchCfg μ θ) (th0 : θ) (vetoF : X → Nat → Bool)
+    (s : ArtState Wt) (xs : List X) :
+    fitEpochs K cfg th0 (fun _ x c => vetoF x c) 1 xs = fit K cfg th0 (fun _ x c => vetoF x c) s xs := by
+  unfold fitEpochs fit partialFit
+  simp only [List.range_one, List.foldl_cons, List.foldl_nil]
+  have := epoch_fold_eq_train_fold K cfg th0 vetoF xs 0 {} (List.replicate xs.length 0) (by simp) rfl
+  simpa using this
+
+/-- **Batching is irrelevant** (C06, for the translated code): two `partial_fit` calls are one call on the
+concatenated batch. -/
+theorem partial_fit_append (K : Kernel X Wt α μ) (cfg : SearchCfg μ θ) (E : Ext X Wt P C α) (th : P → θ)
+    (is_none : Bool) (reset : X → Wt → Nat → P → C → Bool) (vetoF : X → Nat → Bool) (mt : MT) (eps : α)
+    (hG : GContract K cfg E th is_none reset vetoF mt eps) (self : Self Wt P) (Xs Ys : List X) :
+    Art.Gen.BaseART.partial_fit E (Art.Gen.BaseART.partial_fit E self Xs is_none reset mt eps).1 Ys is_none reset mt eps =
+      Art.Gen.BaseART.partial_fit E self (Xs ++ Ys) is_none reset mt eps := by
+  rw [partial_fit_spec K cfg E th is_none reset vetoF mt eps hG self Xs,
+      partial_fit_spec K cfg E th is_none reset vetoF mt eps hG self (Xs ++ Ys)]
+  simp only
+  rw [partial_fit_spec K cfg E th is_none reset vetoF mt eps hG]
+  simp [partialFit, List.foldl_append]
+
+/-- **`fit` forgets the earlier model** (C06, for the translated code): the result depends on the estimator it is
+called on only through its hyper-parameters. -/
+theorem fit_history_independent (K : Kernel X Wt α μ) (cfg : SearchCfg μ θ) (E : Ext X Wt P C α) (th : P → θ)
+    (is_none : Bool) (reset : X → Wt → Nat → P → C → Bool) (vetoF : X → Nat → Bool) (mt : MT) (eps : α)
+    (hG : GContract K cfg E th is_none reset vetoF mt eps) (self₁ self₂ : Self Wt P) (hp : self₁.params = self₂.params)
+    (Xs : List X) (epochs : Nat) (v₁ v₂ : Bool) :
+    Art.Gen.BaseART.fit E self₁ Xs is_none reset epochs mt eps v₁ =
+      Art.Gen.BaseART.fit E self₂ Xs is_none reset epochs mt eps v₂ := by
+  rw [fit_spec K cfg E th is_none reset vetoF mt eps hG self₁, fit_spec K cfg E th is_none reset vetoF mt eps hG self₂, hp]
+
+/-- one epoch of the translated `fit` = the translated `partial_fit` on a freshly constructed estimator -/
+theorem fit_one_eq_partial_fit_fresh (K : Kernel X Wt α μ) (cfg : SearchCfg μ θ) (E : Ext X Wt P C α) (th : P → θ)
+    (is_none : Bool) (reset : X → Wt → Nat → P → C → Bool) (vetoF : X → Nat → Bool) (mt : MT) (eps : α)
+    (hG : GContract K cfg E th is_none reset vetoF mt eps) (self : Self Wt P) (p0 : P) (Xs : List X) (v : Bool)
+    (hp : self.params = p0) :
+    Art.Gen.BaseART.fit E self Xs is_none reset 1 mt eps v =
+      Art.Gen.BaseART.partial_fit E ⟨[], [], 0, p0, [], false⟩ Xs is_none reset mt eps := by
+  rw [fit_spec K cfg E th is_none reset vetoF mt eps hG self, partial_fit_spec K cfg E th is_none reset vetoF mt eps hG]
+  simp only [hp, Bool.false_eq_true, if_false]
+  rw [fitEpochs_one K cfg (th p0) vetoF {} Xs]
+  rfl
+
+end Train
+
+/-! ### Every module with a scalar vigilance, with the generated decision tables -/
+
+section ScalarFit
+variable {X Wt β : Type} [Field β] [LinearOrder β] [IsStrictOrderedRing β]
+
+theorem scalar_gcontract (K : Kernel X Wt β β) (inf eps : β) (mt : MT) (is_none : Bool) (vetoF : X → Nat → Bool)
+    (hv : is_none = true → ∀ x c, vetoF x c = false) :
+    GContract K (scalarCfg mt false (· + eps) (· - eps) inf) (scalarExt K inf) id is_none
+      (fun x _ c _ _ => !vetoF x c) vetoF mt eps := by
+  intro W x p0
+  have h := scalar_contract K W inf p0 eps x mt is_none (vetoF x) (fun h c => hv h x c)
+  exact { choice := h.choice, passes := h.passes, track := h.track, keep := h.keep, update := h.update, newW := h.newW,
+          tilde := h.tilde, veto_none := h.veto_none, veto_some := fun _ _ _ _ _ _ => rfl }
+
+/-- **`BaseART.fit`, statements and decision tables all translated from the source, is the model's `fitEpochs` under
+the scalar configuration.** -/
+theorem scalar_fit [Inhabited Wt] (K : Kernel X Wt β β) (inf eps : β) (mt : MT) (is_none : Bool) (vetoF : X → Nat → Bool)
+    (hv : is_none = true → ∀ x c, vetoF x c = false) (self : Self Wt β) (Xs : List X) (epochs : Nat) (v : Bool) :
+    letI : Inhabited β := ⟨0⟩
+    Art.Gen.BaseART.fit (scalarExt K inf) self Xs is_none (fun x _ c _ _ => !vetoF x c) epochs mt eps v =
+      (let r := fitEpochs K (scalarCfg mt false (· + eps) (· - eps) inf) self.params (fun _ x c => vetoF x c) epochs Xs
+       (⟨r.W, r.cnt, r.n, self.params, r.labels, true⟩, ())) := by
+  letI : Inhabited β := ⟨0⟩
+  exact fit_spec K _ (scalarExt K inf) id is_none _ vetoF mt eps (scalar_gcontract K inf eps mt is_none vetoF hv) self Xs epochs v
+
+theorem scalar_partial_fit [Inhabited Wt] (K : Kernel X Wt β β) (inf eps : β) (mt : MT) (is_none : Bool)
+    (vetoF : X → Nat → Bool) (hv : is_none = true → ∀ x c, vetoF x c = false) (self : Self Wt β) (Xs : List X) :
+    letI : Inhabited β := ⟨0⟩
+    Art.Gen.BaseART.partial_fit (scalarExt K inf) self Xs is_none (fun x _ c _ _ => !vetoF x c) mt eps =
+      (let s0 : ArtState Wt := if self.hasW then ⟨self.W, self.cnt, self.n, self.labels⟩ else ⟨[], self.cnt, self.n, []⟩
+       let r := partialFit K (scalarCfg mt false (· + eps) (· - eps) inf) self.params (fun _ x c => vetoF x c) s0 Xs
+       (⟨r.W, r.cnt, r.n, self.params, r.labels, true⟩, ())) := by
+  letI : Inhabited β := ⟨0⟩
+  exact partial_fit_spec K _ (scalarExt K inf) id is_none _ vetoF mt eps (scalar_gcontract K inf eps mt is_none vetoF hv) self Xs
+
+end ScalarFit
+
 end Art.GenSpec.Control
